@@ -78,10 +78,25 @@ func Gen(caseID, tier string) (json.RawMessage, error) {
 	nt := r.PickInt(2, 2, 3, 4, 6, 8, 12, 16)
 	pool := r.Range(1, 5)
 	modes := []string{"min", "fast", "fast", "mixed", "mixed", "slow"}
-	shape := r.Intn(4)
+	shape := r.Intn(5)
+	if shape == 4 {
+		// requests spread over the whole life of a renewable TGT: the library's renewal (at 5/6 of
+		// the life) and its session update happen while other tasks are asking for tickets
+		if tp.RenewS == 0 {
+			tp.RenewS = 3600
+		}
+		tp.PreLogin = true
+		if nt < 4 {
+			nt = r.PickInt(4, 6, 8)
+		}
+		pool = 5
+	}
 	for i := 1; i <= nt; i++ {
 		t := TaskT{ID: i, Sched: simrt.Sched{Seed: r.U64(), Mode: modes[r.Intn(len(modes))]}}
 		nops := r.Range(1, 8)
+		if shape == 4 {
+			nops = r.Range(5, 8)
+		}
 		for k := 0; k < nops; k++ {
 			o := Op{}
 			switch x := r.Intn(20); {
@@ -122,6 +137,16 @@ func Gen(caseID, tier string) (json.RawMessage, error) {
 			}
 			if shape == 1 {
 				o.ThinkNs = int64(r.Range(0, 2000)) // maximum contention
+			}
+			if shape == 4 {
+				o.ThinkNs = int64(r.Range(0, int(tp.LifeS)*250))*1_000_000 + int64(r.Range(0, 3000))
+				if k == 0 {
+					// start around the renewal point of the TGT obtained by the login at time 0
+					o.ThinkNs = tp.LifeS*1_000_000_000*5/6 + int64(r.Range(-2000, 8000))*1000 + int64(r.Range(0, 999))
+				}
+				if r.Chance(1, 2) {
+					o.ThinkNs = int64(r.Range(0, 4000)) * 1000
+				}
 			}
 			t.Ops = append(t.Ops, o)
 		}
